@@ -24,8 +24,7 @@ RULE = ('request side: URL shapes x options; the first bytes written are parsed 
         'and accept == digest exactly; else one Rejected (ProtocolError when oversized), no Ready, no message '
         'events, terminal event, socket closed. A class is (reply variant family, expectation, cut class).')
 ASSUMPTIONS = [
-    'lenient-integer status spellings (+101, 0101, 1_0_1) and duplicated Upgrade / Sec-WebSocket-Accept headers '
-    'are recorded, not judged; IPv6-literal URLs are recorded, not judged',
+    'an extra space before the status code and duplicated Upgrade / Sec-WebSocket-Accept headers are recorded, not judged',
     'Host may be "host" or "host:port" (lomond always sends host:port)',
 ]
 
@@ -91,7 +90,10 @@ def reply_variants(rnd, tier):
     # status codes
     for st in (100, 102, 200, 201, 204, 301, 302, 400, 401, 403, 404, 426, 500, 503, 599, 'abc', '', '1O1', 10, 1010):
         out.append(('status:%s' % st, dict(status=st, reason='X'), 'rejected'))
-    for st in ('+101', '0101', '1_0_1', ' 101'):
+    # int() of these tokens is 101, but the status is not 101
+    for st in ('+101', '0101', '1_0_1', '00101', '1_01', '101_'):
+        out.append(('status-not-101:%s' % st, dict(status=st), 'rejected'))
+    for st in (' 101',):
         out.append(('status-lenient:%s' % st, dict(status=st), 'unjudged'))
     # oversized header blocks
     for n in (16385, 16386, 17000, 40000):
@@ -323,6 +325,9 @@ def run_reply(case, acc):
             key += ':accept-case-variant'
         elif fam.startswith('wrong-accept:'):
             key += ':' + fam
+        elif fam.startswith('status-not-101:'):
+            key += ':status-token-is-not-101'
+
         acc.violation(key, 'C10 reply %s (%s, expected %s)' % (key, fam, exp), case,
                       dict(events=run.normed()[-6:], end=run.end, exc=run.exc, spec=spec))
     else:
